@@ -552,12 +552,22 @@ def rand_meta(rng, base):
     kvs = []
     for k in range(5, len(META)):
         if rng.random() < (0.5 if base else 0.3):
+            big = False
             if META[k][2] is int:
                 v = rng.randint(0, 30)
+                if rng.random() < 0.3:
+                    # integers a float64 cannot hold: they must come back exactly
+                    big = True
+                    v = rng.choice([2 ** 53 + 1, 2 ** 62 + 3, -(2 ** 53) - 1,
+                                    2 ** 63 - 1, 2 ** 63 - 2 - rng.randint(0, 9),
+                                    2 ** 53 + 2 * rng.randint(1, 99) + 1])
             else:
                 v = rng.choice([8 * rng.randint(1, 3000), rng.randint(1, 900)])
-            kvs.append([k, v, 0 if META[k][0] == "user"
-                        else rng.choice([0, 0, 1])])
+            # form 1: a str for an int key / an int for a float key (small
+            # values only: a string goes through float); form 2: numpy int64
+            form = rng.choice([0, 2]) if big else (
+                0 if META[k][0] == "user" else rng.choice([0, 0, 1]))
+            kvs.append([k, v, form])
     if not base and rng.random() < 0.15:
         kvs.append([4, rng.randint(1, 3), 0])
     return kvs
@@ -577,7 +587,10 @@ def meta_dict(kind, kvs):
     for k, v, form in kvs:
         sec, key, typ = META[k]
         if typ is int:
-            val = str(v) if form else int(v)
+            val = str(v) if form == 1 else int(v)
+            if form == 2:
+                import numpy
+                val = numpy.int64(v)
         else:
             val = v / 8
             if form and val == int(val):
